@@ -6,6 +6,7 @@
 import Scc.Fun2Core.SemSim3
 import Scc.Fun2Core.SemClauses
 import Scc.Fun2Core.SemBind
+import Scc.Fun2Core.SemCodTypingStep
 
 namespace Scc.Fun2Core.Sem
 open Scc
@@ -15,6 +16,8 @@ variable {q : Core.Prog} {p : Fun.CheckedProgram}
 /-- what the simulation needs to know about the source program and its translation -/
 structure Ctx (p : Fun.CheckedProgram) (q : Core.Prog) : Prop where
   cod : CodOK p q
+  /-- the checked program is typed (monomorphic, annotated typing: what the checker guarantees) -/
+  progM : Typed.ProgM p
   /-- definition names of the translation are pairwise distinct -/
   nodup : (q.defs.map (·.name)).Nodup
   /-- the body of a translated definition mentions only its parameters -/
@@ -24,7 +27,7 @@ structure Ctx (p : Fun.CheckedProgram) (q : Core.Prog) : Prop where
     ∃ D a τ τ', D ∈ q.defs ∧ D.name = ⟨f, 0⟩ ∧
       D.ctx = compileContext d.ctx ++ [⟨⟨a, 0⟩, .cns, τ⟩] ∧
       Compiled q 0 d.body (.var .cns ⟨a, 0⟩ τ') D.body ∧
-      Core.isCodata q.codataTypes τ' = false ∧ good p d.body = true ∧
+      (∃ τb, getType d.body = some τb ∧ τ' = compileTy τb) ∧ good p d.body = true ∧
       a ∉ d.ctx.map (·.var) ∧ (d.ctx.map (·.var)).Nodup ∧ (∀ x ∈ fv d.body, x ∈ d.ctx.map (·.var))
 
 theorem find_of_mem_nodup {D : Core.Def} : ∀ {defs : List Core.Def}, D ∈ defs →
@@ -59,8 +62,8 @@ theorem step_ret_case (p : Fun.CheckedProgram) (K : String) (vs : List Fun.Value
 
 /-- a constructor value meets a `case` continuation -/
 theorem ret_case {n : Nat} {k : Fun.Stack} {ρ ρ1 : CEnv} {cs' : Core.Clauses}
-    (h : KRel (GP p) q n k (.case ρ cs')) {v : Fun.Value} {V : CVal} {S : Core.State}
-    (hv : VRel (GP p) q n v V) (hn : n ≤ S.fresh) (ha : AgreeOn (tfvClauses cs' []) ρ ρ1)
+    (h : KRel (GP p) p q n k (.case ρ cs')) {v : Fun.Value} {V : CVal} {S : Core.State}
+    (hv : VRel (GP p) p q n v V) (hn : n ≤ S.fresh) (ha : AgreeOn (tfvClauses cs' []) ρ ρ1)
     (hs : Core.step q S = S.pass V (.case ρ1 cs')) :
     Chunk p q (R p q) true true μ (.ret v k) S := by
   cases h with
